@@ -301,3 +301,108 @@ class Persist:
                f'the object returned by {root.qualname} is created in this call (a copy), on every path: it never '
                f'aliases an instance kept in a cache', detail)
         return 1
+
+
+# ---------------------------------------------------------------------- A2p: parameter containment of memo keys
+MEMO_PARAM_TABLE = {
+    ('adsg_core.optimization.assign_enc.lazy_encoding:LazyImputer.impute', 'matrix'):
+        'the matrix is the decode of (vector, existence), both of which are in the key',
+    ('adsg_core.optimization.assign_enc.lazy_encoding:LazyImputer.impute', 'tried_vectors'):
+        'recursion guard of the imputation search that starts from this vector',
+    ('adsg_core.optimization.assign_enc.lazy.imputation.first:LazyFirstImputer._impute', 'vector'):
+        'the result is the first valid vector of the existence pattern; the input only reaches the store on '
+        'the path where no variable exists',
+    ('adsg_core.optimization.assign_enc.lazy.imputation.first:LazyFirstImputer._impute', 'matrix'):
+        'as above: the stored matrix is the decode of the enumerated vector',
+    ('adsg_core.optimization.assign_enc.lazy.imputation.first:LazyFirstImputer._impute', 'validate'):
+        'closure over the existence pattern, which is in the key',
+}
+CONTEXT_PARAMS = {'graph': 'cache dictionaries handed down the graph algorithms are created per graph by their owner'}
+
+
+def _param_leaves(fn, expr, at, rd):
+    from ..cfg import node_exprs
+    deps = set()
+    seen = set()
+    work = [(n, at) for n in names_used(expr)]
+    while work:
+        nm, node = work.pop()
+        for d in rd.defs_of(nm, node):
+            if (nm, d.id) in seen:
+                continue
+            seen.add((nm, d.id))
+            if d.kind == 'entry':
+                deps.add(nm)
+            else:
+                for e in node_exprs(d):
+                    if e is not None:
+                        for n2 in names_used(e):
+                            work.append((n2, d))
+    return deps
+
+
+def check_memo_functions(ctx, functions, rule='A2p'):
+    """Every function that memoises its result (`if K in C: return C[K]` / `x = C.get(K)` ... `C[K] = v`) in a
+    container it did not create: each parameter the stored value depends on also feeds the key (otherwise two
+    calls that differ in that parameter share an entry), except the container itself, the receiver when the
+    container lives on it, and tabled context parameters."""
+    from ..cfg import node_exprs
+    n = 0
+    for fn in functions:
+        if isinstance(fn.node, ast.Lambda):
+            continue
+        cfg = build_cfg(fn)
+        rd = None
+        for s in cfg.nodes:
+            if not (s.kind == 'stmt' and isinstance(s.ast, ast.Assign)):
+                continue
+            for t in s.ast.targets:
+                if not isinstance(t, ast.Subscript):
+                    continue
+                cont, key = norm(t.value), norm(t.slice)
+                hit = False
+                for nd in cfg.nodes:
+                    for e in node_exprs(nd):
+                        if e is None:
+                            continue
+                        for x in walk_no_nested(e):
+                            if isinstance(x, ast.Compare) and len(x.ops) == 1 and isinstance(x.ops[0], ast.In) and \
+                                    norm(x.left) == key and norm(x.comparators[0]) == cont:
+                                # the hit path returns the stored value
+                                for m, lab in nd.succ:
+                                    if lab == 'T' and m.kind == 'stmt' and isinstance(m.ast, ast.Return) and \
+                                            f'{cont}[{key}]' in norm(m.ast):
+                                        hit = True
+                            if isinstance(x, ast.Call) and call_name(x) == 'get' and x.args and \
+                                    norm(x.args[0]) == key and isinstance(x.func, ast.Attribute) and \
+                                    norm(x.func.value) == cont:
+                                hit = True
+                if not hit:
+                    continue
+                cdefs = [a for a in walk_fn(fn) if isinstance(a, ast.Assign) and norm(a.targets[0]) == cont]
+                if cdefs and all(isinstance(a.value, (ast.Dict, ast.Set)) or
+                                 (isinstance(a.value, ast.Call) and norm(a.value.func) in ('dict', 'set', 'defaultdict'))
+                                 for a in cdefs):
+                    continue
+                rd = rd or build_rd(fn)
+                kd = _param_leaves(fn, t.slice, s, rd)
+                vd = _param_leaves(fn, s.ast.value, s, rd)
+                croot = _param_leaves(fn, t.value, s, rd) | ({cont.split('.')[0]} if cont.split('.')[0] in fn.params
+                                                            else set())
+                missing = []
+                for p in sorted(vd - kd - croot):
+                    if (fn.key, p) in MEMO_PARAM_TABLE:
+                        ctx.used_exception('A2p', f'{fn.qualname}:{p}', MEMO_PARAM_TABLE[(fn.key, p)])
+                    elif p in CONTEXT_PARAMS:
+                        ctx.used_exception('A2p', f'context:{p}', CONTEXT_PARAMS[p])
+                    else:
+                        missing.append(p)
+                n += 1
+                ctx.touch(fn)
+                ctx.ob(rule, fkey(fn, rule, f'{cont}[{key}]'), not missing, f'{fn.module.relpath}:{s.lineno}',
+                       f'{fn.qualname} memoises in `{cont}` under `{key}`: every parameter the stored value '
+                       f'depends on feeds the key',
+                       f'key <- {sorted(kd)}, value <- {sorted(vd)}' if not missing else
+                       f'the stored value depends on parameter(s) {missing} that do not feed the key `{key}` '
+                       f'(key <- {sorted(kd)}): calls that differ only in them share one entry')
+    return n
